@@ -103,6 +103,7 @@ def _arch_ops(obj, seq, new=True, cont=False):
             model.apply(m, a)
         # observation steps; what they must show is decided by the judge's own model
         ops.append({"op": "str", "obj": obj})
+        ops.append({"op": "mapping", "obj": obj})
         for layer, _ in model.listing():
             ops.append({"op": "getitem", "obj": obj, "k": layer})
     return ops, model
@@ -123,6 +124,7 @@ def _rule_ops(obj, seq, cont=False, watch=None):
             model.apply(m, a)
             if watch and m == "are_named":
                 ops.append({"op": "str", "obj": watch[0]})
+                ops.append({"op": "mapping", "obj": watch[0]})
                 for layer in watch[1]:
                     ops.append({"op": "getitem", "obj": watch[0], "k": layer})
     return ops
